@@ -176,7 +176,7 @@ func c01Gen(g *core.Gen, emit func(*p2Case)) {
 	}
 	// names made of the first and last printable / control ASCII codes (0x01, 0x1f, 0x20, 0x7e, 0x7f): whatever Create
 	// accepts, Repair has to be able to read back
-	for _, nm := range [][]string{{"a\x7fb", "c~d"}, {"\x01x", "y\x1f"}, {" lead", "trail "}, {"\x7f", "~"}} {
+	for _, nm := range [][]string{{"a\x7fb", "c~d"}, {"\x01x", "y\x1f"}, {" lead", "trail "}, {"\x7f", "~"}, {"sub/report", "sub/report.txt"}, {"x.tar", "x.tar.gz"}, {"notes", "notes.bak"}} {
 		ncfg := scen.P2Config{Sizes: []int{11, 6}, Slice: 4, Blocks: 3, Class: "uniq", Names: nm}
 		genP2Deviations(g, ncfg, false, 1, mk(ncfg, 1))
 	}
